@@ -110,6 +110,14 @@ CHECKS["C10"] = dict(
     ref="C10",
 )
 
+CHECKS["C11"] = dict(
+    technique="Coq proofs over the sort key translated from sort_errors: the sorted report is invariant under any permutation and any partition of its diagnostics (uniqueness of sorted permutations for a total order; lexicographic key order proved total/transitive/antisymmetric); fresh-process permutation/partition runs, in-process histories, cold/warm and concurrent CLI runs",
+    category="proof",
+    text="Partial. The key tuples of both sort modes and the shape `sorted(filtered, key=sort_errors)` of run_refurb are translated on each run. Proved for any number of diagnostics with pairwise distinct keys: report(ds1) = report(ds2) for every permutation (so for every order of the file arguments), report(concat groups) = sort of the concatenated group reports (any grouping), the report is sorted by the documented key and is a permutation of the input; equal keys name the same file, position and code. Outside any executable model and decided by execution only: that mypy's analysis of independent files does not depend on their order (all permutations / 2-block partitions of four files, fresh process each, both sort modes), process history (re-run, re-run after an edit, eight runs in sequence, six identical runs for id reuse, compared with fresh processes), cold vs warm cache and four concurrent CLI runs in one directory.",
+    note="Trusted: Coq kernel; sort-key translator; Python's sorted modelled as insertion sort (same result for distinct keys); mypy (execution only). Concurrency and the on-disk cache cannot be expressed in the model.",
+    ref="C11",
+)
+
 NOT_APPLICABLE = {}
 
 
